@@ -68,8 +68,8 @@ def build_obj(spec):
     if t == "geobox":
         return GeoBox(tuple(spec["shape"]), Affine(*spec["affine"]), mk_crs_spec(spec["tag"]))
     if t == "gcp":
-        pix = np.asarray(spec["pix"], dtype="float64")
-        wld = np.asarray(spec["wld"], dtype="float64")
+        pix = np.asarray(spec["pix"], dtype=spec.get("pix_dtype", "float64"))
+        wld = np.asarray(spec["wld"], dtype=spec.get("wld_dtype", "float64"))
         aff = Affine(*spec["affine"]) if spec.get("affine") else None
         return GCPGeoBox(tuple(spec["shape"]), GCPMapping(pix, wld, mk_crs_spec(spec["tag"])), aff)
     if t == "tiles":
@@ -147,6 +147,12 @@ def families():
     F["gcp"].append({"type": "gcp", "shape": [3, 4], "pix": pix, "wld": wld, "affine": [1.0, 0.0, 1.0, 0.0, 1.0, 0.0], "tag": {"label": "3857", "spell": "int"}})
     F["gcp"].append({"type": "gcp", "shape": [3, 4], "pix": pix, "wld": wld, "affine": None, "tag": {"label": "3577", "spell": "int"}})
     F["gcp"].append({"type": "gcp", "shape": [3, 4], "pix": pix, "wld": wld, "affine": None, "tag": {"label": "3857", "spell": "wkt2"}})
+    # the same control points in other array representations (equal values must stay equal/hash-equal)
+    g0 = F["gcp"][0]
+    F["gcp"] += [dict(g0, pix_dtype="int64"), dict(g0, pix_dtype="float32", wld_dtype="float32"), dict(g0, wld_dtype="int64")]
+    pz = [list(p) for p in pix]
+    pz[0] = [-0.0, 0.0]
+    F["gcp"].append(dict(g0, pix=pz))
     F["tiles"] = [{"type": "tiles", "base": b, "tile": t} for b, t in
                   ([[10, 10], [4, 4]], [[11, 11], [4, 4]], [[12, 12], [4, 4]], [[9, 10], [4, 4]], [[10, 10], [4, 5]], [[10, 10], [5, 4]], [[10, 10], [10, 10]], [[10, 10], [12, 12]], [[4, 4], [10, 10]])]
     F["vtiles"] = [{"type": "vtiles", "chunks": c} for c in
@@ -600,9 +606,12 @@ def _known_d3(sub, case, msg):
         return "are equal but hash differently" in msg and case["a"] != case["b"]
     if sub == "pairs" and "have different hashes" in msg:
         ta, tb = case["a"].get("tag"), case["b"].get("tag")
-        rest_a = {k: v for k, v in case["a"].items() if k != "tag"}
-        rest_b = {k: v for k, v in case["b"].items() if k != "tag"}
-        return rest_a == rest_b and ta is not None and tb is not None and ta["label"] == tb["label"] and ta["spell"] != tb["spell"]
+        if not (ta is not None and tb is not None and ta["label"] == tb["label"] and ta["spell"] != tb["spell"]):
+            return False
+        # attributable to the spelling only: with b re-tagged in a's spelling the hashes must agree
+        a = build_obj(case["a"])
+        b2 = build_obj(dict(case["b"], tag=ta))
+        return a == b2 and try_hash(a) == try_hash(b2)
     return False
 
 
